@@ -113,7 +113,8 @@ def catalogue():
         r = math.ceil(d / 2)
         add(f"Sphere_{d}", {"cls": "Sphere", "d2": d}, [-r] * 3, [r] * 3)
     for r1, r2, h, p1, p2 in [(2, 4, 4, 0, 2), (0, 4, 4, -1, 3), (2, 5, 6, 2, 8), (1, 3, 2, -4, -1), (2, 4, 4, 1, 7), (2, 4, 2, 0, 8), (0, 4, 2, 0, 8),
-                               (2, 4, 4, -7, -5), (1, 3, 2, -6, -3)]:       # section angles below -180 degrees
+                               (2, 4, 4, -7, -5), (1, 3, 2, -6, -3),       # section angles below -180 degrees
+                               (2, 4, 4, 7, 10), (2, 4, 4, -10, -7)]:     # ... and beyond +-360 degrees (phi1 < phi2, phi2 - phi1 <= 360 is all the format demands)
         add(f"CylinderSegment_{r1}_{r2}_{h}_{p1}_{p2}".replace("-", "m"),
             {"cls": "CylinderSegment", "r12": r1, "r22": r2, "h2": h, "p1": p1, "p2": p2}, [-r2, -r2, -math.ceil(h / 2)], [r2, r2, math.ceil(h / 2)])
     for i, v in enumerate((T1, T2)):
